@@ -18,6 +18,7 @@ ASSUMPTIONS = [
     "values are compared inside the model's exact number domain (small dyadics, -0, NaN, +-inf with their IEEE / C99 rules); for "
     "expressions whose value leaves it (1/3, large finite powers) only the oracle-free half is checked: both renderings print the same text",
     "f64::powf with an integer exponent returns the exact result when it is representable",
+    "outside the exact domain the value of a numeral (Num!F64Value: the nearest double) is evaluated by Rust's str::parse::<f64>, which is correctly rounded",
     "operator semantics on exact values (Arith/Compare/Logic in Abasic.tla) are shared by Fold and the token evaluator; "
     "what is independent is the parsing: Fold has no parser at all",
 ]
@@ -69,6 +70,13 @@ def run(pid, tier, seed):
                 violations.append({"property": "C02", "class": "trace_event_rejected", "features": {"what": why.split(':', 1)[1]},
                                    "replay": {"expr": bytes(ev["min"]).decode(), "redundant": bytes(ev["red"]).decode(), "event": ev}})
 
+    # the leaves: numerals of every length mean their correctly rounded double
+    lp = os.path.join(wd, "literals.json")
+    c.run_vh(["expr-literals", str(seed), str(3000 if tier == "quick" else 300000), lp], timeout=3600)
+    lrep = json.load(open(lp))
+    violations += lrep["violations"]
+    literals = lrep["counters"].get("literals", 0)
+
     coverage = {
         "states": states, "transitions": sum(st["generated"] for st, _ in results),
         "traces_validated_against_impl": counters.get("rows", 0) + validated,
@@ -78,6 +86,7 @@ def run(pid, tier, seed):
         "evaluations": 2 * counters.get("rows", 0) + 2 * validated,
         "distinct_nontrivial": counters.get("rows_nontrivial", 0),
         "rows_replayed": counters.get("rows", 0),
+        "numerals_checked_against_correct_rounding": literals,
         "rows_with_predicted_value": counters.get("rows_predicted", 0),
         "rows_oracle_free_only": counters.get("rows_inexact_oracle_free_only", 0),
         "random_trees_validated_by_tlc": validated,
